@@ -28,7 +28,7 @@ From ClapModel Require Import Complete.EngineAccept Complete.EngineFuel Complete
 From ClapModel Require ParseProofs.Chain ParseProofs.ActionsTop.
 From ClapModel Require Import Complete.EngineLine Complete.EnginePositional.
 From ClapModel Require ParseProofs.ChainWide.
-From ClapModel Require Import Complete.EngineWide.
+From ClapModel Require Import Complete.EngineItems Complete.EngineWide.
 From ClapModel Require Gen.EngineSites.
 From Coq Require Import ZArith.
 Open Scope N_scope.
@@ -567,8 +567,12 @@ Print Assumptions C18_escape_only_positionals_refuted.
 
 (** * Round 4: lines with POSITIONAL values; [args_conflicts_with_subcommands] (Complete/EngineWide.v)
 
+    [item18]: C09's option items ([Chain.item]: `--flag`, `--opt=v`, `--opt v`, `-abc`, `-ov`, `-o v`) plus `-o=v` and
+    multi-valued options `--opt v1 .. vk` / `-o v1 .. vk` with [k] = the maximum of the range, the values plain words that
+    are neither subcommand names nor the option's terminator ([value_tok]).  [pitems18 c pos pre F pos']: items and values
+    of single-valued positionals; [pos]/[pos'] the positional counter before and after.
     [body18 pc pre F pst pos est]: [pre] are the arguments of one level - options and values of single-valued
-    positionals ([ChainWide.pitems], the counter starts at 1), optionally followed by [k] values of a multi-valued
+    positionals ([pitems18], the counter starts at 1), optionally followed by [k] values of a multi-valued
     positional [a] ([ChainWide.multi_vals], [k] below the engine's [eng_num_args a]); [F] is the parser's state
     transformer, [pst]/[pos] the parser's loop state and positional counter behind them, [est] the engine's state:
     [ValueDone] resp. [Pos pos k].  [pline pc line pcf posf vf]: `body_0 n_1 body_1 ... n_k pre_k`, every [n_i] a
@@ -576,6 +580,41 @@ Print Assumptions C18_escape_only_positionals_refuted.
     of a multi-valued positional if THE LEVEL REACHED sets [subcommand_precedence_over_arg]); a level with
     [args_conflicts_with_subcommands] is left only before any of its own arguments; [posf]/[vf]: the parser's
     positional counter and "an argument was seen" flag at the final level [pcf]. *)
+
+(** STATE AGREEMENT on an item of the wider class: the engine is back in [ValueDone] (same level, same index) and the
+    parser's loop is the item's transformer [F], then the loop on the rest in [ValuesDone] *)
+Theorem C18_state_agreement_item18 : forall pc cur toks F, elevel pc cur -> item18 pc toks F ->
+  (forall pi, shadow_run toks cur pi false ValueDone = SNext cur pi false ValueDone) /\
+  (forall rest pos vaf st, fs_skip st = 0 ->
+     parse_loop pc (toks ++ rest) (Chain.lsV pos vaf) st = (do st' <- F st; parse_loop pc rest (Chain.lsV pos true) st')).
+Proof. exact state_agreement_item18. Qed.
+Print Assumptions C18_state_agreement_item18.
+
+(** ... and INSIDE a multi-valued occurrence: after `--opt v1 .. vj`, [j] below the maximum of the range, the engine stands
+    in [Opt a (j+1)] where the parser stands in [PSOpt (a_id a)] with exactly [v1 .. vj] pending *)
+Theorem C18_values_agree : forall pc cur tok f a r vs, elevel pc cur ->
+  Chain.no_sub pc tok -> Parser.to_long tok = Some (f, true, None) -> get_long pc f = Some a -> a_takes_value a = true ->
+  a_req_eq a = false -> find_arg pc (a_id a) = Some a -> a_num a = Some r ->
+  N.of_nat (length vs) < vmax r -> Forall (value_tok pc a) vs ->
+  (forall pi, shadow_run (tok :: vs) cur pi false ValueDone = SNext cur pi false (Opt a (1 + N.of_nat (length vs)))) /\
+  (forall rest pos vaf st,
+     parse_loop pc (tok :: vs ++ rest) (Chain.lsV pos vaf) st =
+     (do st' <- sepm_fn pc ILong a vs st; parse_loop pc rest (mkL (PSOpt (a_id a)) pos true false) st')).
+Proof. exact values_agree. Qed.
+Print Assumptions C18_values_agree.
+
+(** a value TERMINATOR is unknown to the engine: `p --opt a ; <TAB>` (`--opt` takes 1..3 values, terminator `;`): the engine
+    stands in [Opt _ 3], the parser has closed the occurrence; `p --opt a ; sub <TAB>`: the parser accepts the line and is at
+    `sub`, the engine took `sub` for the third value, stays at `p`, offers `--opt` of `p`, and `p --opt a ; sub --opt` is
+    rejected with UnknownArgument (same on the real crate) *)
+Theorem C18_terminator_refuted :
+  Term.walk_at ([112] :: [Term.ddopt; [97]; Term.semi] ++ [[]]) 4 = Some ([112], 3) /\
+  Term.chain_of (parse_top Term.c0 ([112] :: Term.line)) = Some [Term.w_sub] /\
+  Term.walk_at ([112] :: Term.line ++ [[45; 45]]) 5 = Some ([112], 0) /\
+  Term.has_cand Term.ddopt (IdArg Term.w_opt) (complete_model [] Term.c0 ([112] :: Term.line ++ [[45; 45]]) 5) = true /\
+  Term.kind_of (parse_top Term.c0 ([112] :: Term.line ++ [Term.ddopt])) = Some EUnknownArgument.
+Proof. exact terminator_refuted. Qed.
+Print Assumptions C18_terminator_refuted.
 
 (** the engine's positional lookup IS the parser's key-map lookup *)
 Theorem C18_find_pos_is_get_pos : forall c n, assert_app c = true -> find_pos c n = get_pos c n.
@@ -641,7 +680,7 @@ Print Assumptions C18_wide_classes_decidable.
     and stays at [pc], with none left it rejects the line with ArgumentConflict *)
 Theorem C18_args_conflict_levels : forall pc cur pre F pos tok sc0,
   lvlw pc -> lvl_rel pc cur -> is_set s_args_negate_subs pc = true ->
-  ChainWide.pitems pc 1 pre F pos -> utf8_valid tok = true -> find_subcommand pc tok = Some sc0 -> aliases_to sc0 s_help = false ->
+  pitems18 pc 1 pre F pos -> utf8_valid tok = true -> find_subcommand pc tok = Some sc0 -> aliases_to sc0 s_help = false ->
   (exists es pc', shadow_run (pre ++ [tok]) cur 1 false ValueDone = SNext es 1 false ValueDone /\
                   build_subcommand pc (c_name sc0) = Some pc' /\ lvl_rel pc' es) /\
   (pre = [] -> forall rest st, exists n', find_subcommand pc n' = Some sc0 /\
